@@ -20,6 +20,10 @@ type KnownFinding struct {
 	Line     string `json:"line,omitempty"`   // the "fixed: property=<id> <commit> <what failed>" line
 }
 
+// collectAll (env VSIM_COLLECT=1) is a development aid: every violation is treated like a known
+// finding so that one sweep lists all violation classes. Never set by the registered checks.
+var collectAll = os.Getenv("VSIM_COLLECT") == "1"
+
 type KnownFindings struct {
 	Findings []KnownFinding `json:"findings"`
 }
@@ -44,6 +48,9 @@ func LoadKnown(path string) (*KnownFindings, error) {
 func (k *KnownFindings) Match(prop string, v Violation) *KnownFinding {
 	if k == nil {
 		return nil
+	}
+	if collectAll {
+		return &KnownFinding{Property: prop, Status: "open", Class: v.Class, What: "(collect mode) " + v.Msg}
 	}
 	for i := range k.Findings {
 		f := &k.Findings[i]
